@@ -53,7 +53,7 @@ func (r *Recorder) BuildReport(now time.Time, maxSize int) *rtcp.CCFeedbackRepor
 		return report
 	}
 	maxReportBlocks := max((maxSize-12-(8*streamCount))/2, 0)
-	maxReportBlocksPerStream := maxReportBlocks / streamCount
+	maxReportBlocksPerStream := min(maxReportBlocks/streamCount, maxReportsPerReportBlock)
 	// Metric blocks are padded to a multiple of 4 bytes: an odd count would use 2 bytes more than budgeted.
 	maxReportBlocksPerStream -= maxReportBlocksPerStream % 2
 
